@@ -3818,3 +3818,159 @@ func (p *Prog) newestByEquality() []Ob {
 	}
 	return obs
 }
+
+// ---------------------------------------------------------------------------
+// R28d GET-PICKS-A-COVERING-SEGMENT (C04): the lookup that picks the segment for Get never answers
+// with a segment on the edge where the offset was found below that segment's own base offset (that
+// case is "before the start": not found; handing it to the segment lets an empty one answer
+// "not assigned yet").
+func (p *Prog) getPicksCoveringSegment() []Ob {
+	var obs []Ob
+	for _, fn := range p.Funcs {
+		if !srcFunc(fn) || fn.Parent() != nil || fn.Signature.Recv() != nil || fn.Origin() != nil {
+			continue
+		}
+		if funcPkgPath(fn) != modPath+"/pkg/segment" || fn.Name() != "Get" || errResultIndex(fn) < 0 {
+			continue
+		}
+		var offParam *ssa.Parameter
+		for _, pr := range fn.Params {
+			if b, ok := pr.Type().Underlying().(*types.Basic); ok && b.Kind() == types.Int64 {
+				offParam = pr
+			}
+		}
+		if offParam == nil {
+			continue
+		}
+		ea := p.ErrAtomsCached()
+		ob := Ob{Rule: "R28", Inst: "d:get-picks-covering-segment:" + funcLabel(fn), Props: []string{"C04"}, Pos: p.posStr(fn.Pos()), Func: funcLabel(fn), Nontrivial: true}
+		// the receiver of a GetOffset call, canonicalised
+		baseOf := func(v ssa.Value) ssa.Value {
+			c, ok := v.(*ssa.Call)
+			if !ok || !c.Common().IsInvoke() || c.Common().Method.Name() != "GetOffset" {
+				return nil
+			}
+			return canon(c.Common().Value)
+		}
+		var bad []string
+		n := 0
+		for _, rt := range returnsOf(fn) {
+			if ea.isFailureReturn(fn, rt) || len(rt.Results) == 0 {
+				continue
+			}
+			n++
+			ret := canon(rt.Results[0])
+			for _, hb := range fn.Blocks {
+				iff, ok := terminator(hb).(*ssa.If)
+				if !ok {
+					continue
+				}
+				x, y, op, ok := relCond(iff.Cond)
+				if !ok {
+					continue
+				}
+				// offset < seg.GetOffset()   or   seg.GetOffset() > offset
+				var seg ssa.Value
+				below := -1
+				switch {
+				case canon(x) == ssa.Value(offParam) && baseOf(y) != nil:
+					seg = baseOf(y)
+					if op == token.LSS {
+						below = 0
+					} else if op == token.GEQ {
+						below = 1
+					}
+				case canon(y) == ssa.Value(offParam) && baseOf(x) != nil:
+					seg = baseOf(x)
+					if op == token.GTR {
+						below = 0
+					} else if op == token.LEQ {
+						below = 1
+					}
+				}
+				if seg == nil || below < 0 || seg != ret {
+					continue
+				}
+				if edgeDominates(hb, below, rt.Block()) {
+					bad = append(bad, p.at(rt)+": the segment is the answer on the edge where the offset is below its base offset")
+				}
+			}
+		}
+		if len(bad) > 0 {
+			ob.Status, ob.Msg, ob.Path = Violated, "Get is sent to a segment that starts after the requested offset: an assigned-but-trimmed offset is then classified by that segment's index, and an empty one says 'not assigned yet' instead of 'not found'", bad
+		} else {
+			ob.Status, ob.Msg = Discharged, fmt.Sprintf("%d success return(s), none on an edge where the offset is below the returned segment's base", n)
+		}
+		obs = append(obs, ob)
+	}
+	return obs
+}
+
+// R20f FILES-UNDER-A-LOG-LOCK (C08): a method of the open log touches segment files only while it
+// holds one of the log's locks (reader list, writer, delete): a call that lists or stats the directory
+// with none of them held races with every delete and roll-over.
+func (p *Prog) filesUnderALogLock() []Ob {
+	var obs []Ob
+	r := p.R
+	ls := p.LocksetCached()
+	touchesFiles := func(g *ssa.Function) bool {
+		return p.reaches(g, func(h *ssa.Function) bool {
+			switch fullName(h) {
+			case "os.Stat", "os.Open", "os.OpenFile", "os.ReadDir", "os.Remove", "os.Rename", "os.Lstat", "os.Truncate":
+				return true
+			}
+			return false
+		})
+	}
+	names := sortedKeys(r.ImplMethods)
+	for _, q := range names {
+		m := r.ImplMethods[q]
+		if m == nil || m.Blocks == nil {
+			continue
+		}
+		var bad []string
+		sites := 0
+		for _, b := range m.Blocks {
+			for _, ins := range b.Instrs {
+				c, ok := ins.(*ssa.Call)
+				if !ok {
+					continue
+				}
+				touches := false
+				for _, g := range p.callees(c) {
+					if inModule(g) && g.Blocks != nil && touchesFiles(g) {
+						touches = true
+					}
+				}
+				if !touches {
+					continue
+				}
+				// calls on the log itself are judged in the callee
+				if g := c.Common().StaticCallee(); g != nil && recvNamed(g) == r.Impl {
+					continue
+				}
+				sites++
+				held := false
+				for mu := range ls.at[c] {
+					if mu == r.ReadersMu || mu == r.WriterMu || mu == r.DeleteMu {
+						held = true
+					}
+				}
+				if !held {
+					bad = append(bad, fmt.Sprintf("%s: %s touches segment files with none of the log's locks held", p.at(c), calleeName(c.Common())))
+				}
+			}
+		}
+		if sites == 0 {
+			continue
+		}
+		ob := Ob{Rule: "R20", Inst: "f:files-under-a-log-lock:Log." + q, Props: []string{"C08"}, Pos: p.posStr(m.Pos()), Func: funcLabel(m), Nontrivial: true}
+		if len(bad) > 0 {
+			ob.Status, ob.Msg, ob.Path = Violated, "the method reads the directory or segment files while a delete or roll-over may be replacing them: it fails with 'no such file' or counts a segment twice merely because another call is in progress", bad
+		} else {
+			ob.Status, ob.Msg = Discharged, fmt.Sprintf("%d call site(s) that touch segment files, each with a lock of the log held", sites)
+		}
+		obs = append(obs, ob)
+	}
+	return obs
+}
